@@ -306,6 +306,9 @@ def classify(orc, name, kind, P, entry, cursor=None, s3=None):
         Q = (l, c - MARKLEN)
         if orc.judge(name, Q)[0] == 'ok' and (s3 is None or (kind, name, Q) in s3):
             return 'location-marker-shift'
+        if s3 is not None and (kind, name, Q) in s3:
+            # the unmarked analysis reports Q for this binding and Q is itself wrong: name the underlying mechanism
+            return classify(orc, name, kind, Q, 'all_names', None, s3)
     claimed = set(q for (k, n, q) in s3 if n == name) if s3 else ()
     site = orc.nearest_site(name, kind, P, claimed) or orc.nearest_site(name, None, P, claimed)
     ff = bool(orc.sep_lines) and orc.sep_lines[0] <= max(l, site['pos'][0] if site else 0)
@@ -358,6 +361,7 @@ class Monitor(object):
 
     def report(self, mech, what, case):
         self.p.hist('violations_by_mechanism(all instances)', mech)
+        self.p.hist('violations_by_mechanism_and_workload', '%s:%s' % (mech, case.get('kind')))
         n = self.per_mech.get(mech, 0)
         self.per_mech[mech] = n + 1
         if n < self.max_per_mech:
